@@ -267,6 +267,7 @@ func runC17(c *Check) {
 	}
 	c.ruleFreshEnvelopePerMessage("R6")
 	c.ruleNoGoroutineOnNotificationPath("R7")
+	c.ruleReadyIDStoredIsIDSent("R8")
 	c.ruleQueuedOnlyOnSend("R2", fChan)
 }
 
@@ -340,6 +341,42 @@ func runC18(c *Check) {
 				"behind Signature.Verify(SigHash(session hash), msg.Key)==true", "the connection can be marked "+which+" without a valid signature over the accept contents and the session hash")
 		}
 		c.Min("R1", "accepted/handshakeComplete=true stores in handleMessage", n, 2)
+		// R11: an accept is handed on to the application only behind the same two checks (a second accept on
+		// an already accepted connection is not exempt)
+		n11 := 0
+		for _, b := range hm.Blocks {
+			for _, in := range b.Instrs {
+				ta, isTA := in.(*ssa.TypeAssert)
+				if !isTA || !ta.CommaOk || shortTypeName(ta.AssertedType) != "AcceptRegister" {
+					continue
+				}
+				var okv ssa.Value
+				for _, r := range *ta.Referrers() {
+					if ex, isEx := r.(*ssa.Extract); isEx && ex.Index == 1 {
+						okv = ex
+					}
+				}
+				for _, bb := range hm.Blocks {
+					iff, isIf := lastIf(bb)
+					if !isIf || okv == nil || iff.Cond != okv {
+						continue
+					}
+					caseB := bb.Succs[0]
+					for _, s := range callsTo(hm, "(*client.RemoteClient).addHandlerMessage") {
+						if !caseB.Dominates(s.Instr.Block()) {
+							continue
+						}
+						n11++
+						ok1, w := mustPass(s.Instr, keyEq)
+						ok2, w2 := mustPass(s.Instr, verify)
+						c.Decide(ok1 && ok2, "R11", fmt.Sprintf("client.(*RemoteClient).handleMessage#accept-forwarded-only-if-verified@%d", n11), s.Pos(), "edge-cutset+provenance", append(w, w2...),
+							"an accept message reaches the application handlers only behind the session-key and signature checks",
+							"an accept message can be handed to the application handlers without the session-key comparison and the signature check (e.g. a second accept on a connection that is already accepted): a forged accept is delivered and the client keeps running")
+					}
+				}
+			}
+		}
+		c.Min("R11", "accept messages handed to the handlers", n11, 1)
 		// failing edges return errors
 		for _, b := range hm.Blocks {
 			iff, ok := lastIf(b)
